@@ -45,12 +45,18 @@ namespace pika {
 
         while (owner_id_ != threads::detail::invalid_thread_id)
         {
+#if defined(PIKA_VERIF)
+            PIKA_VERIF_POINT(601, this, 0, 0);    // lock(): owned, about to wait (internal lock held)
+#endif
             cond_.wait(l, ec);
             if (ec) { return; }
         }
 
         util::register_lock(this);
         owner_id_ = self_id;
+#if defined(PIKA_VERIF)
+        PIKA_VERIF_POINT(604, this, 0, 0);    // lock(): acquired
+#endif
     }
 
     bool mutex::try_lock(char const* /* description */, error_code& /* ec */)
@@ -59,11 +65,20 @@ namespace pika {
 
         std::unique_lock<mutex_type> l(mtx_);
 
-        if (owner_id_ != threads::detail::invalid_thread_id) { return false; }
+        if (owner_id_ != threads::detail::invalid_thread_id)
+        {
+#if defined(PIKA_VERIF)
+            PIKA_VERIF_POINT(605, this, 0, 0);    // try_lock(): owned -> false
+#endif
+            return false;
+        }
 
         threads::detail::thread_id_type self_id = pika::threads::detail::get_self_id();
         util::register_lock(this);
         owner_id_ = self_id;
+#if defined(PIKA_VERIF)
+        PIKA_VERIF_POINT(605, this, 1, 0);    // try_lock(): acquired
+#endif
         return true;
     }
 
@@ -86,6 +101,9 @@ namespace pika {
 
         owner_id_ = threads::detail::invalid_thread_id;
 
+#if defined(PIKA_VERIF)
+        PIKA_VERIF_POINT(602, this, 0, 0);    // unlock(): owner cleared, before notify_one
+#endif
         {
             [[maybe_unused]] util::ignore_while_checking il(&l);
 
@@ -111,23 +129,35 @@ namespace pika {
         threads::detail::thread_id_type self_id = pika::threads::detail::get_self_id();
         if (owner_id_ != threads::detail::invalid_thread_id)
         {
+#if defined(PIKA_VERIF)
+            PIKA_VERIF_POINT(606, this, 0, 0);    // try_lock_until(): owned, about to wait
+#endif
             pika::threads::detail::thread_restart_state const reason =
                 cond_.wait_until(l, abs_time, ec);
             if (ec) { return false; }
 
             if (reason == pika::threads::detail::thread_restart_state::timeout)    //-V110
             {
+#if defined(PIKA_VERIF)
+                PIKA_VERIF_POINT(607, this, 0, 0);    // try_lock_until(): timeout -> false
+#endif
                 return false;
             }
 
             if (owner_id_ != threads::detail::invalid_thread_id)    //-V110
             {
+#if defined(PIKA_VERIF)
+                PIKA_VERIF_POINT(607, this, 1, 0);    // try_lock_until(): notified but owned -> false
+#endif
                 return false;
             }
         }
 
         util::register_lock(this);
         owner_id_ = self_id;
+#if defined(PIKA_VERIF)
+        PIKA_VERIF_POINT(607, this, 2, 0);    // try_lock_until(): acquired
+#endif
         return true;
     }
 }    // namespace pika
